@@ -4,6 +4,7 @@ import re
 T = "RsslVerif.Thm.C03."
 TX = "RsslVerif.Thm.C03X."
 TD = "RsslVerif.Thm.C03D."
+TR = "RsslVerif.Thm.C03R."
 
 NONCONST = set("vrkun")
 
@@ -14,6 +15,9 @@ def nontrivial(req, obs):
         return True
     if f[0] in ("C03.type", "C03.typex"):
         return obs.count(" ") >= 1            # at least two typed nodes
+    if f[0] == "C03.ret":
+        # a template instantiated inside a function body, or more than one function, and at least one return statement
+        return len(f) == 2 and ("(st " in f[1] or "(ft " in f[1] or "(sm " in f[1]) and "(ret " in f[1]
     if f[0] == "C03.decl":
         # a named type carrying a modifier, or a modifier at the use site, and a declaration the checker accepts
         return len(f) == 7 and (f[3] not in ("-", "0") or f[4] != "-") and obs.startswith("decl ")
@@ -111,6 +115,18 @@ def finding_key(req, obs, detail):
 def shrink(req):
     """replace the statement's expression by one of its sub-expressions (as an expression statement)"""
     f = req.split("\t")
+    if f[0] == "C03.ret" and len(f) == 2:
+        # drop one parenthesised node (a statement, a method, a root definition) at a time
+        s = f[1]
+        starts = []
+        for i, c in enumerate(s):
+            if c == "(":
+                starts.append(i)
+            elif c == ")":
+                j = starts.pop()
+                if len(starts) >= 1:
+                    yield "C03.ret\t" + (s[:j].rstrip() + s[i + 1:]).replace("( ", "(")
+        return
     if f[0] == "C03.decl" and len(f) == 7:
         layers = [] if f[3] == "-" else f[3].split(",")
         for i in range(len(layers)):
@@ -191,6 +207,25 @@ def search(ctx):
             reqs.append("C03.prog\t%s\t-/s.Float32\t(init %s %s)\tany" % (env, t, x))
     reqs += search_ext()
     reqs += search_decl()
+    reqs += search_ret()
+    return reqs
+
+
+def search_ret():
+    """returns after an instantiation episode: every function return type x every type the last method / the function
+    template returns x episode form x a value of every type (and a bare return), directly after the episode and in a block"""
+    reqs = []
+    types = ["f", "i", "b", "f2", "i2", "s0", "s1", "v"]
+    vals = ["f", "i2", "s0", "s1", "-"]
+    for outer in types:
+        for last in types + ["T"]:
+            lv = "-" if last == "v" else last
+            for v in vals:
+                for form in ("local", "cast", "sizeof", "init"):
+                    reqs.append("C03.ret\t(prog (fn %s (st %s s0 (m %s (ret %s))) (ret %s)))" % (outer, form, last, lv, v))
+                reqs.append("C03.ret\t(prog (fn %s (st local f (m i (ret i)) (m %s (ret %s))) (if (ret %s))))" % (outer, last, lv, v))
+                reqs.append("C03.ret\t(prog (fn %s (ft %s s1 (ret %s)) (ret %s)))" % (outer, last, lv, v))
+                reqs.append("C03.ret\t(prog (fn %s (ft f i (st cast T (m %s (ret %s))) (ret i)) (ret %s)))" % (outer, last, lv, v))
     return reqs
 
 
@@ -248,8 +283,8 @@ def search_ext():
 
 SPEC = {
     "id": "C03",
-    "gens": ["RankTable", "TypingTables", "IntrinsicSigs", "ElabTables", "TypeMods"],
-    "lean_modules": ["RsslVerif.Thm.C03", "RsslVerif.Thm.C03X", "RsslVerif.Thm.C03D"],
+    "gens": ["RankTable", "TypingTables", "IntrinsicSigs", "ElabTables", "TypeMods", "RetScope"],
+    "lean_modules": ["RsslVerif.Thm.C03", "RsslVerif.Thm.C03X", "RsslVerif.Thm.C03D", "RsslVerif.Thm.C03R"],
     "theorems": [T + n for n in [
         "find_sound", "find_rejects_rvalue_to_lvalue", "find_keeps_const",
         "elab_sound", "elab_debug_check_redundant", "elabStmt_sound", "ids_in_range",
@@ -287,7 +322,11 @@ SPEC = {
         "parse_type_for_usage_as_modelled", "mergeModifiers_flag", "declared_modifier_is_union_of_layers",
         "typedef_const_survives_use_site_modifiers", "typedef_modifiers_survive_use_site_modifiers",
         "struct_member_const_comes_from_the_type", "declared_modifier_consistent", "conflicting_modifiers_rejected",
-        "typedef_const_write_rejected", "mutant_discipline_drops_typedef_const"]],
+        "typedef_const_write_rejected", "mutant_discipline_drops_typedef_const"]] + [TR + n for n in [
+        # a return is checked against the return type of the function that contains it, whatever was instantiated before it
+        "returnTypeComesFromTheScopeChain", "return_type_is_enclosing_functions", "direct_returns_get_the_functions_type",
+        "accepted_returns_are_returnable", "elab_rejects_unconvertible_return_after_instantiations",
+        "methods_return_their_own_types"]],
     "harness": "c03",
     "nontrivial": nontrivial,
     "finding_key": finding_key,
